@@ -1,5 +1,374 @@
 /-
-  Props/C14.lean — property theorems for C14 (stub; to be filled in).
+  Props/C14.lean — C14: inheritance only adds strictness; invalid class definitions fail when
+  defined.
+
+  `defineClass` (Sem/Define.lean) mirrors `StructMeta.__new__` and its helpers.  The theorems
+  quantify over every world reachable by class statements (`WorldOk`, established for all histories
+  by `reachable_ok`), every class source, every hierarchy shape (any depth, multiple bases,
+  mixins: the MRO is Python's C3 linearisation) and every value.
+
+  Where the code today violates the statement, the full statement is a `def … : Prop`, the
+  theorem proved is the `_partial` one with the explicit exclusion, and a kernel-checked
+  counterexample shows the full statement false of the model (= known findings).
 -/
+import TypedpyModel.Lemmas.World
 namespace Typedpy.C14
+open Typedpy
+
+/-! ### inheritance only adds fields; inherited fields are the base's objects -/
+
+/-- Any ancestor at any depth, any shape of hierarchy (multiple bases, mixins): a class has every
+    field of every class in its MRO. -/
+theorem ancestor_fields_subset {w : World} (hw : WorldOk w) {c a : ClassDef} {cn : String}
+    (hc : w.find cn = some c) (ha : w.find a.name = some a) (hmem : a.name ∈ c.mro) :
+    ∀ n ∈ a.fieldNames, n ∈ c.fieldNames := by
+  intro n hn
+  have hcok := hw cn c hc
+  have haok := hw a.name a ha
+  rw [fieldName_iff_owner haok] at hn
+  rw [fieldName_iff_owner hcok]
+  cases hk : firstOwner (ownRev w) n a.mro with
+  | none => simp [hk] at hn
+  | some k =>
+    rcases firstOwner_some hk with ⟨hka, hko⟩
+    rcases hcok.closed a.name hmem with ⟨ad, had, hsub⟩
+    rw [ha] at had; cases had
+    exact firstOwner_isSome_of_mem (hsub.subset hka) hko
+
+/-- Any ancestor at any depth: if the class that provides field `n` to `c` (the first owner along
+    `c`'s MRO) is the ancestor `a` or one of `a`'s ancestors, then `c` holds for `n` the identical
+    Field object — declaration and default — that `a` holds. -/
+theorem ancestor_field_same {w : World} (hw : WorldOk w) {c a : ClassDef} {cn k n : String}
+    (hc : w.find cn = some c) (ha : w.find a.name = some a) (hmem : a.name ∈ c.mro)
+    (hk : firstOwner (ownRev w) n c.mro = some k) (hka : k ∈ a.mro) :
+    lookup n c.allFields = lookup n a.allFields := by
+  have hcok := hw cn c hc
+  have haok := hw a.name a ha
+  rcases hcok.closed a.name hmem with ⟨ad, had, hsub⟩
+  rw [ha] at had; cases had
+  rw [lookup_allFields hcok, lookup_allFields haok, hk, firstOwner_sublist hsub hcok.nodup hk hka]
+
+/-- the new class is an element of the extended world and satisfies the invariants -/
+theorem defined_class_ok {O : Oracles} {w : World} {src : ClassSrc} {cd : ClassDef}
+    (hw : WorldOk w) (h : defineClass O w src = .ok cd) (hfresh : w.find src.name = none) :
+    WorldOk (w.add cd) ∧ (w.add cd).find cd.name = some cd ∧ cd.mro = src.name :: mroTail w src := by
+  have hw' := worldOk_add_define hw h hfresh
+  rcases defineClass_ok h with ⟨_, rfl⟩
+  exact ⟨hw', find_add_fresh (d := build w src) hfresh, rfl⟩
+
+theorem base_in_mro {O : Oracles} {w : World} {src : ClassSrc} {cd : ClassDef}
+    (h : defineClass O w src = .ok cd) {b : String} (hb : b ∈ src.bases) : b ∈ cd.mro := by
+  rcases defineClass_ok h with ⟨hc, rfl⟩
+  have hf := defFacts hc
+  have : src.bases.Sublist (mroTail w src) := c3merge_sublist _ _ _ hf.c3ok _ (by simp [mroSeqs])
+  exact List.mem_cons_of_mem _ (this.subset hb)
+
+/-- C14 (fields): a subclass has every field of each of its bases. -/
+theorem sub_fields_superset {O : Oracles} {w : World} {src : ClassSrc} {cd bd : ClassDef}
+    (hw : WorldOk w) (h : defineClass O w src = .ok cd) (hfresh : w.find src.name = none)
+    {b : String} (hb : b ∈ src.bases) (hbd : w.find b = some bd) :
+    ∀ n ∈ bd.fieldNames, n ∈ cd.fieldNames := by
+  rcases defined_class_ok hw h hfresh with ⟨hw', hself, _⟩
+  have hbn : bd.name = b := findCls_name hbd
+  have hbd' : (w.add cd).find bd.name = some bd := by rw [hbn]; exact find_add_of_some hbd
+  exact ancestor_fields_subset hw' hself hbd' (by rw [hbn]; exact base_in_mro h hb)
+
+/-- a name the class body does not declare is not owned by the new class -/
+theorem not_owned_of_not_declared {w : World} {cd : ClassDef} {n : String}
+    (hself : w.find cd.name = some cd) (hn : n ∉ cd.own.map (·.1)) :
+    (lookup n (ownRev w cd.name)).isSome = false := by
+  cases h : (lookup n (ownRev w cd.name)).isSome with
+  | false => rfl
+  | true =>
+    rw [lookup_isSome_iff] at h
+    simp only [ownRev, ownOf, hself, List.map_reverse, List.mem_reverse] at h
+    exact absurd h hn
+
+/-- C14 (inherited fields, single structure base — with any mixins — at every level, hence chains
+    of any depth by `ancestor_field_same`): a field the class body does not redeclare is the
+    base's Field object: same declaration, same default. -/
+theorem inherited_field_same {O : Oracles} {w : World} {src : ClassSrc} {cd bd : ClassDef}
+    (hw : WorldOk w) (h : defineClass O w src = .ok cd) (hfresh : w.find src.name = none)
+    {b n : String} (hb : b ∈ src.bases) (hbd : w.find b = some bd)
+    (honly : ∀ b' ∈ src.bases, b' ≠ b → ∀ bd', w.find b' = some bd' → bd'.mro = [b'] ∧ bd'.own = [])
+    (hn : n ∉ (ownMembers src.entries).map (·.1)) :
+    lookup n cd.allFields = lookup n bd.allFields := by
+  rcases defined_class_ok hw h hfresh with ⟨hw', hself, hmro⟩
+  have hbn : bd.name = b := findCls_name hbd
+  have hbd' : (w.add cd).find bd.name = some bd := by rw [hbn]; exact find_add_of_some hbd
+  have hbm : bd.name ∈ cd.mro := by rw [hbn]; exact base_in_mro h hb
+  have hcok := hw' _ _ hself
+  have hown : cd.own = ownMembers src.entries := by rcases defineClass_ok h with ⟨_, rfl⟩; rfl
+  cases hk : firstOwner (ownRev (w.add cd)) n cd.mro with
+  | none =>
+    -- nobody owns n: absent on both sides
+    have h1 : lookup n cd.allFields = none := by rw [lookup_allFields hcok, hk]
+    have h2 : lookup n bd.allFields = none := by
+      cases hl : lookup n bd.allFields with
+      | none => rfl
+      | some m =>
+        have : n ∈ bd.fieldNames := by
+          rw [ClassDef.fieldNames, ← lookup_isSome_iff, hl]; rfl
+        have := ancestor_fields_subset hw' hself hbd' hbm n this
+        rw [fieldName_iff_owner hcok, hk] at this
+        cases this
+    rw [h1, h2]
+  | some k =>
+    refine ancestor_field_same hw' hself hbd' hbm hk ?_
+    rcases firstOwner_some hk with ⟨hkm, hko⟩
+    -- k is in the MRO: the class itself (excluded: it does not declare n), or from a base's MRO
+    rcases defineClass_ok h with ⟨hc, hcd⟩
+    have hf := defFacts hc
+    rw [hmro] at hkm
+    rcases List.mem_cons.mp hkm with hks | hkt
+    · have hnm : cd.name = k := by rw [hcd, hks]; rfl
+      have := not_owned_of_not_declared (n := n) hself (by rw [hown]; exact hn)
+      rw [hnm] at this
+      rw [this] at hko; cases hko
+    · rcases c3merge_origin _ _ _ hf.c3ok k hkt with ⟨s, hs, hks⟩
+      simp only [mroSeqs, List.mem_append, List.mem_map, List.mem_singleton] at hs
+      have hbdm : b ∈ bd.mro := by
+        rcases (hw b bd hbd).head with ⟨t, ht⟩
+        rw [ht, hbn]; exact List.mem_cons_self
+      -- a base other than b is a field-less mixin, so it owns nothing
+      have other : ∀ b' ∈ src.bases, b' ≠ b → k = b' → False := by
+        intro b' hb' hne hkb
+        subst hkb
+        have := hf.basesFound k hb'
+        cases hfk : w.find k with
+        | none => simp [hfk] at this
+        | some kd =>
+          have ho := (honly k hb' hne kd hfk).2
+          have : ownRev (w.add cd) k = [] := by
+            simp [ownRev, ownOf, find_add_of_some (d := cd) hfk, ho]
+          rw [this] at hko
+          simp [lookup] at hko
+      rcases hs with ⟨bd', hbd'm, rfl⟩ | rfl
+      · rcases mem_baseDefs.mp hbd'm with ⟨b', hb', hfb'⟩
+        by_cases hbb : b' = b
+        · subst hbb
+          rw [hbd] at hfb'; cases hfb'
+          exact hks
+        · have hm := (honly b' hb' hbb bd' hfb').1
+          rw [hm] at hks
+          have : k = b' := by simpa using hks
+          exact absurd this (fun hk' => other b' hb' hbb hk')
+      · by_cases hkb : k = b
+        · rw [hkb]; exact hbdm
+        · exact absurd rfl (fun _ : k = k => other k hks hkb rfl)
+
+/-- C14 (required): a parameter the constructor of base `bd` demands — unless a base listed
+    earlier declares the same name optional — is in the subclass's `_required`, and unless the
+    subclass turns it into a Constant its constructor demands it too. -/
+theorem sub_required_superset_partial {O : Oracles} {w : World} {src : ClassSrc} {cd bd : ClassDef}
+    (h : defineClass O w src = .ok cd) {pre post : List ClassDef}
+    (hb : structBases w src = pre ++ bd :: post) {n : String} (hn : n ∈ bd.sig.req)
+    (hpre : ∀ p ∈ pre, n ∈ p.sig.opt → n ∈ p.sig.req) :
+    n ∈ cd.required ∧ (n ∉ cd.constants.map (·.1) → n ∈ cd.sig.req) := by
+  rcases defineClass_ok h with ⟨_, rfl⟩
+  have hl : lookup n (basesParams w src) = some true := by
+    rw [basesParams, lookup_dedupKeys, hb, allSigParams_append]
+    apply lookup_pre _ pre hpre
+    simp only [allSigParams]
+    exact lookup_sigParams_req hn _
+  have hmem : (n, true) ∈ basesParams w src := lookup_mem hl
+  have hbr : n ∈ basesRequired w src := by
+    simp only [basesRequired, List.mem_map, List.mem_filter]
+    exact ⟨(n, true), ⟨hmem, rfl⟩, rfl⟩
+  refine ⟨?_, ?_⟩
+  · show n ∈ requiredOf w src
+    rw [requiredOf, mem_dedupStr]
+    exact List.mem_append_left _ hbr
+  · intro hc
+    show n ∈ (sigOf w src).req
+    simp only [sigOf, mem_dedupStr]
+    apply List.mem_append_left
+    simp only [List.mem_filter, List.mem_map]
+    refine ⟨⟨(n, true), hmem, rfl⟩, ?_⟩
+    have hc0 : n ∉ (constantsOf (resolvedFields w src)).map (·.1) := hc
+    have hc' : ((constantsOf (resolvedFields w src)).map (·.1)).contains n = false := by
+      simpa using hc0
+    have : (basesRequired w src).contains n = true := by simpa using hbr
+    rw [this, hc']; simp
+
+
+/-- instance-level consequence: an identical Field object validates every value identically -/
+def fieldValidate (O : Oracles) (c : ClassDef) (n : String) (v : PyVal) : Option (R PyVal) :=
+  match lookup n c.allFields with
+  | some (.field d _) => some (validate O d v)
+  | _ => none
+
+def fieldDefault (c : ClassDef) (n : String) : Option Dflt :=
+  match lookup n c.allFields with
+  | some (.field _ d) => d
+  | _ => none
+
+/-- same object, hence the same accept / reject / normal form for every value and the same
+    default -/
+theorem same_field_same_behaviour (O : Oracles) {c a : ClassDef} {n : String}
+    (h : lookup n c.allFields = lookup n a.allFields) :
+    (∀ v, fieldValidate O c n v = fieldValidate O a n v) ∧ fieldDefault c n = fieldDefault a n := by
+  simp only [fieldValidate, fieldDefault, h]
+  exact ⟨fun _ => trivial, trivial⟩
+
+/-- the full "required" statement of C14: false of the code (see the counterexamples) -/
+def sub_required_superset_statement : Prop :=
+  ∀ (O : Oracles) (w : World) (src : ClassSrc) (cd bd : ClassDef), WorldOk w →
+    defineClass O w src = .ok cd → bd ∈ structBases w src →
+    ∀ n ∈ bd.required, n ∈ bd.fieldNames → n ∈ cd.required
+
+/-! ### invalid definitions fail when defined -/
+
+/-- the full statement: every fault of the vocabulary makes the class statement raise — false of
+    the code (see the counterexamples) -/
+def fault_rejected_statement : Prop :=
+  ∀ (O : Oracles) (w : World) (src : ClassSrc) (f : Fault), f.applies O w src = true →
+    ∃ e, defineClass O w (inject f src) = .error e
+
+/-- C14 (faults): for every class source whatsoever, every world and both guard settings, a
+    single fault of any kind — outside the two known holes — makes the class statement raise. -/
+theorem fault_rejected_partial (O : Oracles) (w : World) (src : ClassSrc) (f : Fault)
+    (ha : f.applies O w src = true) (hk : f.knownHole O = false) :
+    ∃ e, defineClass O w (inject f src) = .error e :=
+  fault_rejected_core O w src f ha hk
+
+/-- … and yields no class: the world is unchanged -/
+theorem fault_yields_no_class (O : Oracles) (w : World) (src : ClassSrc) (f : Fault)
+    (ha : f.applies O w src = true) (hk : f.knownHole O = false) :
+    stepWorld O w (.define (inject f src)) = w := by
+  rcases fault_rejected_core O w src f ha hk with ⟨e, he⟩
+  simp [stepWorld, stepClass, he]
+
+/-- subclassing an ImmutableField class is refused -/
+theorem immutableField_subclass_rejected (fw : List FieldCls) (name b : String) (bases : List String)
+    (hb : b ∈ bases) (hs : sealedFieldCls fw b = true) :
+    ∃ e, defineFieldClass fw name bases = .error e := by
+  unfold defineFieldClass
+  cases hc : c3 ((bases.filterMap fun b => (findFieldCls b fw).map (·.mro)) ++ [bases]) with
+  | none => exact ⟨_, rfl⟩
+  | some tail =>
+    have hsub : bases.Sublist tail := c3merge_sublist _ _ _ hc _ (by simp)
+    have : tail.any (sealedFieldCls fw) = true := List.any_eq_true.mpr ⟨b, hsub.subset hb, hs⟩
+    exact ⟨.typeErr, by simp [this]⟩
+
+/-- a class whose direct bases include AbstractStructure cannot be instantiated -/
+theorem abstract_not_instantiable (O : Oracles) (c : ClassDef) (kw : List (String × PyVal))
+    (h : "AbstractStructure" ∈ c.bases) : instantiate O c kw = .error .typeErr := by
+  have : c.bases.contains "AbstractStructure" = true := by simpa using h
+  unfold instantiate
+  rw [if_pos this]
+
+theorem abstract_subclass_not_instantiable {O : Oracles} {w : World} {src : ClassSrc} {cd : ClassDef}
+    (h : defineClass O w src = .ok cd) (hb : "AbstractStructure" ∈ src.bases)
+    (kw : List (String × PyVal)) : instantiate O cd kw = .error .typeErr := by
+  rcases defineClass_ok h with ⟨_, rfl⟩
+  exact abstract_not_instantiable O _ kw hb
+
+/-- "AbstractStructure cannot be instantiated directly": false of the code for the class
+    AbstractStructure itself -/
+def abstract_statement : Prop :=
+  ∀ (O : Oracles) (c : ClassDef) (kw : List (String × PyVal)),
+    (c.name = "AbstractStructure" ∨ "AbstractStructure" ∈ c.bases) → isError (instantiate O c kw) = true
+
+/-! ### kernel-checked counterexamples (the known findings) and non-vacuity -/
+
+def exO : Oracles := { reMatch := fun _ _ => true }
+def W0 : World := initWorld true true
+
+def plainSrc (name : String) (bases : List String) (entries : List (String × SrcEntry)) : ClassSrc :=
+  { name, bases, entries }
+
+def intF : SrcEntry := .field (.integer {}) none none
+
+/-- finding `fault-accepted:default-violates:kw-falsy`: `a = String(default=0)` defines -/
+theorem falsy_default_not_validated :
+    (Fault.defaultKw "a" (.string none none none) (.lit (.int 0))).applies exO W0 (plainSrc "X" ["Structure"] []) = true
+    ∧ isError (defineClass exO W0
+        (inject (.defaultKw "a" (.string none none none) (.lit (.int 0))) (plainSrc "X" ["Structure"] []))) = false := by
+  decide
+
+/-- finding `fault-accepted:mutable-default:class-form-nonempty`: `a: Array = [1]` defines -/
+theorem mutable_class_form_default_accepted :
+    (Fault.mutableClassForm "a" (.seqAny .list {}) (.list [.int 1])).applies exO W0 (plainSrc "X" ["Structure"] []) = true
+    ∧ isError (defineClass exO W0
+        (inject (.mutableClassForm "a" (.seqAny .list {}) (.list [.int 1])) (plainSrc "X" ["Structure"] []))) = false := by
+  decide
+
+theorem fault_rejected_statement_false : ¬ fault_rejected_statement := by
+  intro h
+  rcases h exO W0 (plainSrc "X" ["Structure"] []) _ falsy_default_not_validated.1 with ⟨e, he⟩
+  have := falsy_default_not_validated.2
+  rw [he] at this
+  cases this
+
+/-- finding `abstract-instantiable:AbstractStructure`: `AbstractStructure()` returns an instance -/
+theorem abstractStructure_itself_instantiates :
+    isError (instantiate exO (World.builtin "AbstractStructure" ["Structure"] false) []) = false := by
+  decide
+
+theorem abstract_statement_false : ¬ abstract_statement := by
+  intro h
+  have := h exO (World.builtin "AbstractStructure" ["Structure"] false) [] (Or.inl rfl)
+  rw [abstractStructure_itself_instantiates] at this
+  cases this
+
+def reqOf (w : World) (n : String) : List String :=
+  match w.find n with
+  | some c => c.required
+  | none => []
+
+/-- finding `required-not-superset:constant`: a Constant of the base is in the base's
+    `_required` (it has no `_default`) but not in the subclass's -/
+def constWorld : World :=
+  runSteps exO W0 [.define (plainSrc "B" ["Structure"] [("c", .obj (.const (.int 1))), ("a", intF)]),
+                   .define (plainSrc "S" ["B"] [("b", intF)])]
+
+theorem constant_required_dropped :
+    (reqOf constWorld "B").contains "c" = true ∧ (reqOf constWorld "S").contains "c" = false
+    ∧ (reqOf constWorld "S").contains "a" = true := by
+  decide
+
+/-- finding `required-not-superset:optional-in-earlier-base`: with two bases the first
+    declaration of a parameter wins, so a name required by the second base stays optional -/
+def twoBaseWorld : World :=
+  runSteps exO W0 [.define { plainSrc "A1" ["Structure"] [("a", intF)] with required := some [] },
+                   .define (plainSrc "A2" ["Structure"] [("a", intF)]),
+                   .define (plainSrc "S" ["A1", "A2"] [("b", intF)])]
+
+theorem second_base_required_dropped :
+    (reqOf twoBaseWorld "A2").contains "a" = true ∧ (reqOf twoBaseWorld "S").contains "a" = false
+    ∧ (reqOf twoBaseWorld "S").contains "b" = true := by
+  decide
+
+/-- non-vacuity: a diamond with a mixin defines, merges fields through the C3 MRO, keeps the
+    required names of the bases, rejects an inconsistent MRO and a sealed base -/
+def diamond : World :=
+  runSteps exO W0 [
+    .define (plainSrc "A" ["Structure"] [("a", intF)]),
+    .mixin "Mx",
+    .define (plainSrc "B" ["Mx", "A"] [("b", .field (.integer {}) (some (.lit (.int 3))) none)]),
+    .define { plainSrc "C" ["A"] [("c", .field (.string none none none) none none)] with required := some [] },
+    .define (plainSrc "D" ["B", "C"] [("d", intF)]),
+    .define (plainSrc "Bad" ["A", "C"] []),
+    .define (plainSrc "Imm" ["ImmutableStructure"] [("i", intF)]),
+    .define (plainSrc "SubImm" ["Imm"] [])]
+
+def mroOfCls (w : World) (n : String) : List String :=
+  match w.find n with
+  | some c => c.mro
+  | none => []
+
+def fieldsOfCls (w : World) (n : String) : List String :=
+  match w.find n with
+  | some c => c.fieldNames
+  | none => []
+
+theorem inheritance_example :
+    mroOfCls diamond "D" = ["D", "B", "Mx", "C", "A", "Structure"]
+    ∧ fieldsOfCls diamond "D" = ["a", "c", "b", "d"]
+    ∧ reqOf diamond "D" = ["a", "d"]
+    ∧ (diamond.find "Bad").isNone = true ∧ (diamond.find "Imm").isSome = true
+    ∧ (diamond.find "SubImm").isNone = true := by
+  decide
+
 end Typedpy.C14
